@@ -186,13 +186,13 @@ func c10PlainMember(g *Gen) ap.Item {
 	case 2:
 		return (*ap.Link)(nil)
 	case 3:
-		return &ap.Link{ID: ap.IRI(c10Pool[g.Intn(len(c10Pool))]), Type: ap.MentionType, Href: ap.IRI(c10Pool[0])}
+		return &ap.Link{ID: ap.IRI(c10Cur[g.Intn(len(c10Cur))]), Type: ap.MentionType, Href: ap.IRI(c10Cur[0])}
 	case 4:
 		return ap.ItemCollection(nil)
 	case 5:
 		return ap.IRIs(nil)
 	default:
-		return ap.IRI(c10Pool[g.Intn(len(c10Pool))])
+		return ap.IRI(c10Cur[g.Intn(len(c10Cur))])
 	}
 }
 
@@ -218,7 +218,7 @@ func c10RandomMembers(g *Gen, maxMembers, maxList int) []c10Member {
 
 // odd members (correspondence only): lists inside the list, what ends a nested loop early, id-less objects, "-"
 func c10OddMember(g *Gen, depth int) ap.Item {
-	id := ap.IRI(c10Pool[g.Intn(len(c10Pool))])
+	id := ap.IRI(c10Cur[g.Intn(len(c10Cur))])
 	obj := func() ap.Item {
 		m := c10Member{kind: c10Kinds[g.Intn(len(c10Kinds))], ptr: g.Chance(2, 3)}
 		for j := range m.lists {
